@@ -15,7 +15,7 @@
       primitives (`relV_get`, `RelV.bind`, `RelV.register`, `RelV.put_view`);
     * the dense step `dstepArgsV`: `scov`, `single` (copy and view forms, with the sentinel rules
       and refusals), the plain lines `cfg` / `upd` / `updr` / `set` / `get` / `vals` and the
-      observers `valid` / `nvalid` / `covmap` on owning AND view targets (a write through a view
+      observers `valid` / `nvalid` / `covmap` / `covmask` on owning AND view targets (a write through a view
       changes field `i` of the parent at already-valid pixels, is refused with `RuntimeError` when
       it would create a valid pixel), `copy`; every other line of the five families falls back to
       `ApiDenseAll.dstepArgsAll` on the owning entries WHILE NO DESCRIPTOR IS IN THE POOL
@@ -371,12 +371,12 @@ theorem relV_get {w : World} {D : DenseWorldV} (h : RelV w D) (x : String) :
 /-! ### storing -/
 
 theorem RelV.bind {w : World} {D : DenseWorldV} (h : RelV w D) (n : String) {m : MapObj}
-    {d : DenseMapC} (hc : CorrC m d) : RelV (w.bind n m) (D.bind n (.own d)) := by
+    {d : DenseMapC} (hc : CorrC { m with view := none } d) : RelV (w.bind n m) (D.bind n (.own d)) := by
   refine ⟨fun x => ?_, fun e he hev => ?_⟩
   · by_cases hx : x = n
     · subst hx
       rw [World.raw?_bind_self, rawV_bind_self]
-      exact corrC_unview hc
+      exact hc
     · rw [World.raw?_bind_ne w n m hx, rawV_bind_ne D (Ne.symm hx)]
       exact h.maps x
   · rcases List.mem_cons.1 he with rfl | he
@@ -387,12 +387,13 @@ theorem RelV.bind {w : World} {D : DenseWorldV} (h : RelV w D) (n : String) {m :
 
 /-- storing, on the sparse side only, a map that agrees with what the name is bound to -/
 theorem RelV.bind_left {w : World} {D : DenseWorldV} (h : RelV w D) (n : String) {m : MapObj}
-    {d : DenseMapC} (hd : D.raw? n = some (.own d)) (hc : CorrC m d) : RelV (w.bind n m) D := by
+    {d : DenseMapC} (hd : D.raw? n = some (.own d)) (hc : CorrC { m with view := none } d) :
+    RelV (w.bind n m) D := by
   refine ⟨fun x => ?_, fun e he hev => ?_⟩
   · by_cases hx : x = n
     · subst hx
       rw [World.raw?_bind_self, hd]
-      exact corrC_unview hc
+      exact hc
     · rw [World.raw?_bind_ne w n m hx]
       exact h.maps x
   · rcases List.mem_cons.1 he with rfl | he
@@ -415,6 +416,1268 @@ theorem RelV.register {w : World} {D : DenseWorldV} (h : RelV w D) (n r : String
     · have hne : e.1 ≠ r := by simpa using (List.mem_filter.1 he).2
       rw [rawV_bind_ne D (Ne.symm hne)]
       exact h.descs e (List.mem_filter.1 he).1 hev
+
+/-! ### `update_values_pix` on a view: the call on the owning twin, then the growth guard -/
+
+section viewcall
+open ApiRanges
+
+def growthS (m : MapObj) (pix : List Nat) : Bool :=
+  pix.any fun p => decide (p < m.npix) && m.abs p == m.sent
+
+def postView {α : Type} (g : Bool) (r : Except Err α) : Except Err α :=
+  match r with
+  | .ok x => if g then .error .runtime else .ok x
+  | .error e => if e = .inexact ∧ g = true then .error .runtime else .error e
+
+theorem postView_error {α : Type} (g : Bool) {e : Err} (he : e ≠ .inexact) :
+    postView g (.error e : Except Err α) = .error e := by
+  unfold postView
+  simp only []
+  rw [if_neg (fun h => he h.1)]
+
+theorem frontErr_ne_inexact {m : MapObj} {op : String} {c : Bool} {e : Err}
+    (h : frontErr m op c = some e) : e ≠ .inexact := by
+  unfold frontErr at h
+  repeat' (split at h)
+  all_goals first | (cases h; done) | (cases h; exact fun h' => nomatch h')
+
+theorem frontErr_nv (m : MapObj) (op : String) (c : Bool) :
+    frontErr { m with view := none } op c = frontErr m op c := rfl
+theorem clearValue_nv (m : MapObj) : clearValue { m with view := none } = clearValue m := rfl
+theorem npix_nv (m : MapObj) : ({ m with view := none } : MapObj).npix = m.npix := rfl
+theorem updSt_nv (m : MapObj) (op : String) (pix : List Nat) (vals : Option (List Val)) (single : Bool) :
+    updSt { m with view := none } op pix vals single = updSt m op pix vals single := rfl
+
+theorem growthS_eq {m : MapObj} {pix : List Nat} (h : ¬ (pix.any (· ≥ m.npix)) = true) :
+    growthS m pix = pix.any fun p => m.abs p == m.sent := by
+  unfold growthS
+  have hl := WFApi.lt_of_not_any_ge h
+  rw [Bool.eq_iff_iff, List.any_eq_true, List.any_eq_true]
+  constructor
+  · rintro ⟨p, hp, h2⟩; exact ⟨p, hp, by simpa [hl p hp] using h2⟩
+  · rintro ⟨p, hp, h2⟩; exact ⟨p, hp, by simpa [hl p hp] using h2⟩
+
+/-- the result of the call on the owning twin, with the view flag put back -/
+def viewRes (mv : Option (String × Nat)) (r : Except Err MapObj) : Except Err MapObj :=
+  match r with
+  | .ok r => .ok { r with view := mv }
+  | .error e => .error e
+
+theorem pv_ite (g : Bool) (mv : Option (String × Nat)) (c : Prop) [Decidable c] {e : Err}
+    (he : e ≠ .inexact) {x y : Except Err MapObj} (h : ¬ c → x = postView g (viewRes mv y)) :
+    (if c then .error e else x) = postView g (viewRes mv (if c then .error e else y)) := by
+  by_cases hc : c
+  · rw [if_pos hc, if_pos hc]; exact (postView_error g he).symm
+  · rw [if_neg hc, if_neg hc]; exact h hc
+
+theorem pv_last_true (mv : Option (String × Nat)) (c : Prop) [Decidable c] (y : MapObj) :
+    (Except.error .runtime : Except Err MapObj)
+      = postView true (viewRes mv (if c then .error .inexact else .ok y)) := by
+  by_cases hc : c
+  · rw [if_pos hc]; rfl
+  · rw [if_neg hc]; rfl
+
+theorem pv_last_false (mv : Option (String × Nat)) (c : Prop) [Decidable c] (y y' : MapObj)
+    (h : y' = { y with view := mv }) :
+    (if c then .error .inexact else .ok y')
+      = postView false (viewRes mv (if c then (.error .inexact : Except Err MapObj) else .ok y)) := by
+  subst h
+  by_cases hc : c
+  · rw [if_pos hc, if_pos hc]; rfl
+  · rw [if_neg hc, if_neg hc]; rfl
+
+theorem apiUpdate_view (m : MapObj) (hv : m.view.isSome = true) (op : String) (pix : List Nat)
+    (vals : Option (List Val)) (single : Bool) (ru : Option Bool) :
+    apiUpdate m op pix vals single ru =
+      postView (growthS m pix)
+        (viewRes m.view (apiUpdate { m with view := none } op pix vals single ru)) := by
+  rw [apiUpdate_eq, apiUpdate_eq]
+  unfold apiUpdateSpec
+  simp only [frontErr_nv, clearValue_nv, npix_nv, updSt_nv, hv, Bool.true_and, Option.isSome_none,
+    Bool.false_and, Bool.false_eq_true, if_false]
+  cases hfe : frontErr m op vals.isNone with
+  | some e => simp only []; exact (postView_error _ (frontErr_ne_inexact hfe)).symm
+  | none =>
+    simp only []
+    by_cases c1 : pix.isEmpty = true
+    · have : pix = [] := by simpa using c1
+      subst this
+      simp only [List.isEmpty_nil, if_true]
+      rfl
+    · rw [if_neg c1, if_neg c1]
+      refine pv_ite _ _ _ (by decide) fun _ => ?_
+      refine pv_ite _ _ _ (by decide) fun _ => ?_
+      refine pv_ite _ _ _ (by decide) fun _ => ?_
+      refine pv_ite _ _ _ (by decide) fun c5 => ?_
+      rw [growthS_eq c5]
+      by_cases c6 : (pix.any fun p => m.abs p == m.sent) = true
+      · rw [if_pos c6, c6]
+        exact pv_last_true _ _ _
+      · rw [if_neg c6, eq_false_of_ne_true c6]
+        exact pv_last_false _ _ _ _ rfl
+
+
+end viewcall
+
+/-! ### the dense side of a call on a view -/
+
+/-- would the call create a valid pixel: an addressed pixel of the sphere reads as the sentinel -/
+def growthD (d : DenseMap) (pix : List Nat) : Bool :=
+  pix.any fun p => decide (p < d.npix) && d.f p == d.sent
+
+/-- `update_values_pix` on the dense array a view shows: the validation chain of `dUpdate`, and —
+    once pixel list and values are in order — `RuntimeError` if an addressed pixel is not valid
+    in the view yet -/
+def dUpdateView (d : DenseMap) (op : String) (pix : List Nat) (vals : Option (List Val))
+    (single : Bool) (ru : Option Bool) : Except Err DenseMap :=
+  postView (growthD d pix) (dUpdate d op pix vals single ru)
+
+/-- two outcomes of a call on a view agree: the same error, or results that agree (view flag
+    apart) and keep the flag -/
+def OutRelV (mv : Option (String × Nat)) (r : Except Err MapObj) (r' : Except Err DenseMap) : Prop :=
+  match r, r' with
+  | .ok m', .ok d' => Corr { m' with view := none } d' ∧ m'.view = mv
+  | .error e, .error e' => e = e'
+  | _, _ => False
+
+theorem corr_unview {m : MapObj} {d : DenseMap} (hc : Corr m d) : Corr { m with view := none } d :=
+  ⟨hc.wf, rfl, hc.covord, hc.spord, hc.kind, hc.sent, hc.abs⟩
+
+theorem growth_eq {m : MapObj} {d : DenseMap} (hc : Corr { m with view := none } d) (pix : List Nat) :
+    growthS m pix = growthD d pix := by
+  unfold growthS growthD
+  have hn : m.npix = d.npix := hc.hdr_facts.2.2.2.2.1
+  have hs : m.sent = d.sent := hc.sent
+  rw [Bool.eq_iff_iff, List.any_eq_true, List.any_eq_true, hn, hs]
+  constructor
+  · rintro ⟨p, hp, h2⟩
+    refine ⟨p, hp, ?_⟩
+    rw [Bool.and_eq_true] at h2 ⊢
+    have hlt : p < d.npix := by simpa using h2.1
+    have ha : m.abs p = d.f p := hc.abs p (by rw [← hn] at hlt; exact hlt)
+    rw [← ha]; exact h2
+  · rintro ⟨p, hp, h2⟩
+    refine ⟨p, hp, ?_⟩
+    rw [Bool.and_eq_true] at h2 ⊢
+    have hlt : p < d.npix := by simpa using h2.1
+    have ha : m.abs p = d.f p := hc.abs p (by rw [← hn] at hlt; exact hlt)
+    rw [ha]; exact h2
+
+/-- **`update_values_pix` on a view and on the dense array it shows agree** -/
+theorem apiUpdate_view_corr {m : MapObj} {d : DenseMap} (hv : m.view.isSome = true)
+    (hc : Corr { m with view := none } d) (op : String) (pix : List Nat)
+    (vals : Option (List Val)) (single : Bool) (ru : Option Bool) :
+    OutRelV m.view (apiUpdate m op pix vals single ru) (dUpdateView d op pix vals single ru) := by
+  rw [apiUpdate_view m hv]
+  unfold dUpdateView
+  rw [growth_eq hc]
+  have := apiUpdate_corr hc op pix vals single ru
+  revert this
+  cases apiUpdate { m with view := none } op pix vals single ru <;>
+    cases dUpdate d op pix vals single ru <;> intro hr
+  · cases hr
+    unfold postView viewRes
+    simp only []
+    split <;> exact rfl
+  · exact hr.elim
+  · exact hr.elim
+  · unfold postView viewRes
+    simp only []
+    cases growthD d pix with
+    | true => exact rfl
+    | false =>
+      have hr' : Corr _ _ := hr
+      exact ⟨⟨hr'.wf, rfl, hr'.covord, hr'.spord, hr'.kind, hr'.sent, hr'.abs⟩, rfl⟩
+
+/-- a view always takes the explicit path of the range form -/
+theorem apiUpdateRanges_view_eq (m : MapObj) (hv : m.view.isSome = true) (op : String)
+    (R : List (Nat × Nat)) (val : Option Val) (sl : Bool) :
+    apiUpdateRanges m op R val sl =
+      if R.isEmpty then apiUpdate m op [] (val.map fun v => [v]) true none
+      else if R.any (fun ab => ab.2 > m.npix) then
+        (match apiUpdate m op [0] (val.map fun v => [v]) true (some (ApiRanges.rawOk R)) with
+         | .ok _ => .error .index
+         | .error e => .error e)
+      else apiUpdate m op (expand R) (val.map fun v => [v]) true (some (ApiRanges.rawOk R)) := by
+  unfold apiUpdateRanges ApiRanges.rawOk
+  simp only [bind, Except.bind, pure, Except.pure, throw, throwThe, MonadExceptOf.throw,
+    hv, Bool.or_true, if_true]
+  split
+  · rfl
+  · split
+    · split <;> simp_all
+    · rfl
+
+/-- the range form on the dense array a view shows -/
+def dRangesView (d : DenseMap) (op : String) (R : List (Nat × Nat)) (val : Option Val) :
+    Except Err DenseMap :=
+  if R.isEmpty then dUpdateView d op [] (val.map fun v => [v]) true none
+  else if R.any (fun ab => ab.2 > d.npix) then
+    (match dUpdateView d op [0] (val.map fun v => [v]) true (some (ApiRanges.rawOk R)) with
+     | .ok _ => .error .index
+     | .error e => .error e)
+  else dUpdateView d op (expand R) (val.map fun v => [v]) true (some (ApiRanges.rawOk R))
+
+theorem apiRanges_view_corr {m : MapObj} {d : DenseMap} (hv : m.view.isSome = true)
+    (hc : Corr { m with view := none } d) (op : String) (R : List (Nat × Nat)) (val : Option Val)
+    (sl : Bool) :
+    OutRelV m.view (apiUpdateRanges m op R val sl) (dRangesView d op R val) := by
+  rw [apiUpdateRanges_view_eq m hv]
+  unfold dRangesView
+  have hn : m.npix = d.npix := hc.hdr_facts.2.2.2.2.1
+  rw [hn]
+  split
+  · exact apiUpdate_view_corr hv hc ..
+  · split
+    · have := apiUpdate_view_corr hv hc op [0] (val.map fun v => [v]) true (some (ApiRanges.rawOk R))
+      revert this
+      cases apiUpdate m op [0] (val.map fun v => [v]) true (some (ApiRanges.rawOk R)) <;>
+        cases dUpdateView d op [0] (val.map fun v => [v]) true (some (ApiRanges.rawOk R)) <;>
+        intro h <;> first | exact h | exact rfl | exact h.elim
+    · exact apiUpdate_view_corr hv hc ..
+
+/-! ### looking a target up in both worlds -/
+
+def dWithMapV (D : DenseWorldV) (a : Args)
+    (k : DenseMapC → Option (String × Nat) → DenseWorldV × String) : DenseWorldV × String :=
+  match a.pos with
+  | n :: _ => match D.get? n with
+    | some dv => k dv.1 dv.2
+    | none => (D, "bad-op:no-such-map")
+  | [] => (D, "bad-op:no-map-name")
+
+theorem relV_withMap {w : World} {D : DenseWorldV} {a : Args} {k : MapObj → World × String}
+    {k' : DenseMapC → Option (String × Nat) → DenseWorldV × String} (h : RelV w D)
+    (hk : ∀ m d v, w.get? (a.pos.headD "") = some m → D.get? (a.pos.headD "") = some (d, v) →
+      CorrC { m with view := none } d → m.view = v →
+      RelV (k m).1 (k' d v).1 ∧ (k m).2 = (k' d v).2) :
+    RelV (withMap w a k).1 (dWithMapV D a k').1 ∧ (withMap w a k).2 = (dWithMapV D a k').2 := by
+  unfold withMap dWithMapV
+  cases hpos : a.pos with
+  | nil => exact ⟨h, rfl⟩
+  | cons n rest =>
+    simp only []
+    have hg := relV_get h n
+    have hn : a.pos.headD "" = n := by rw [hpos]; rfl
+    cases hm : w.get? n with
+    | none =>
+      rw [hm] at hg
+      cases hd : D.get? n with
+      | none => exact ⟨h, rfl⟩
+      | some dv => rw [hd] at hg; exact hg.elim
+    | some m =>
+      rw [hm] at hg
+      cases hd : D.get? n with
+      | none => rw [hd] at hg; exact hg.elim
+      | some dv =>
+        rw [hd] at hg
+        obtain ⟨d, v⟩ := dv
+        exact hk m d v (by rw [hn]; exact hm) (by rw [hn]; exact hd) hg.1 hg.2
+
+theorem corrC_of_unview {m : MapObj} {d : DenseMapC} (hc : CorrC { m with view := none } d)
+    (hv : m.view = none) : CorrC m d :=
+  ⟨⟨hc.corr.wf, hv, hc.corr.covord, hc.corr.spord, hc.corr.kind, hc.corr.sent, hc.corr.abs⟩, hc.cov⟩
+
+/-- a name that resolves without the view flag is bound to an owning entry -/
+theorem getV_own {D : DenseWorldV} {n : String} {d : DenseMapC} (h : D.get? n = some (d, none)) :
+    D.raw? n = some (.own d) := by
+  unfold DenseWorldV.get? at h
+  split at h
+  · cases h
+  · rename_i d' hd; cases h; exact hd
+  · split at h
+    · unfold resolveV at h
+      repeat' (split at h)
+      all_goals cases h
+    · cases h
+
+/-! ### stores on an owning target -/
+
+theorem RelV.put {w : World} {D : DenseWorldV} (h : RelV w D) (n : String) {m : MapObj}
+    {d : DenseMapC} (hc : CorrC m d) : RelV (w.put n m) (D.bind n (.own d)) := by
+  rw [World.put_eq_bind hc.corr.view]; exact h.bind n (corrC_unview hc)
+
+theorem RelV.put_left {w : World} {D : DenseWorldV} (h : RelV w D) (n : String) {m : MapObj}
+    {d : DenseMapC} (hd : D.raw? n = some (.own d)) (hc : CorrC m d) : RelV (w.put n m) D := by
+  rw [World.put_eq_bind hc.corr.view]; exact h.bind_left n hd (corrC_unview hc)
+
+/-- a write request on an owning target: `ApiDenseCov.dRunReqC` in the world with views -/
+def dRunReqOwn (D : DenseWorldV) (n : String) (d : DenseMapC) : WReq → DenseWorldV × String
+  | .bad s => (D, s)
+  | .reject => (D, errLine .value)
+  | .upd op pix vals single =>
+    match dUpdate d.toDense op pix vals single none with
+    | .ok d' => (D.bind n (.own ⟨d', grown d (.upd op pix vals single)⟩), "ok")
+    | .error e => (D, errLine e)
+  | .ranges op R val sl =>
+    match dRanges d.toDense op R val sl with
+    | .ok d' => (D.bind n (.own ⟨d', grown d (.ranges op R val sl)⟩), "ok")
+    | .error e => (D, errLine e)
+
+theorem relV_runReqOwn {w : World} {D : DenseWorldV} (h : RelV w D) {n : String} {m : MapObj}
+    {d : DenseMapC} (hd : D.raw? n = some (.own d)) (hc : CorrC m d) (req : WReq) :
+    RelV (runReq w n m req).1 (dRunReqOwn D n d req).1 ∧
+      (runReq w n m req).2 = (dRunReqOwn D n d req).2 := by
+  cases req with
+  | bad s => exact ⟨h, rfl⟩
+  | reject => exact ⟨h.put_left n hd (hc.cache none), rfl⟩
+  | upd op pix vals single =>
+    have := apiUpdate_corr hc.corr op pix vals single none
+    simp only [runReq, dRunReqOwn]
+    revert this
+    cases hA : apiUpdate m op pix vals single <;>
+      cases dUpdate d.toDense op pix vals single none <;> intro hr
+    · cases hr; exact ⟨h.put_left n hd (hc.cache none), rfl⟩
+    · exact hr.elim
+    · exact hr.elim
+    · rename_i m' d'
+      refine ⟨h.put n ⟨hr, fun k hk => ?_⟩, rfl⟩
+      have hcm : m'.c = m.c := by rw [(ApiRanges.apiUpdate_ok hA).2.2]; rfl
+      rw [hcm] at hk ⊢
+      rw [apiUpdate_cov hc.corr.wf hA k hk, hc.cov k hk, hc.c_eq]
+      rfl
+  | ranges op R val sl =>
+    have := apiRanges_corr hc.corr op R val sl
+    simp only [runReq, dRunReqOwn]
+    revert this
+    cases hA : apiUpdateRanges m op R val sl <;> cases hB : dRanges d.toDense op R val sl <;> intro hr
+    · cases hr; exact ⟨h.put_left n hd (hc.cache none), rfl⟩
+    · exact hr.elim
+    · exact hr.elim
+    · rename_i m' d'
+      refine ⟨h.put n ⟨hr, fun k hk => ?_⟩, rfl⟩
+      have hcm : m'.c = m.c := by
+        unfold MapObj.c; rw [hr.covord, hr.spord, hc.corr.covord, hc.corr.spord]
+        have := dRanges_ok hB
+        rw [this.1, this.2.1]
+      rw [hcm] at hk ⊢
+      rw [apiRanges_cov hc.corr.wf hc.corr.view hA k hk, hc.cov k hk, hc.c_eq]
+      rfl
+
+/-! ### stores through a view -/
+
+section putview
+open ApiRecord
+
+/-- **a store through a view, relation level**: the sparse world after `put` through the view
+    `vn` of field `i` of `pn` is related to any dense world that differs from `D` at `pn` only,
+    where it holds a dense map agreeing with the written-back parent -/
+theorem relV_put_view {w : World} {D D' : DenseWorldV} (h : RelV w D) (hw : w.Good)
+    {vn pn : String} {i : Nat} {v v' : MapObj} {dp' : DenseMapC}
+    (hget : w.get? vn = some v) (hview : v.view = some (pn, i))
+    (hv'v : v'.view = v.view) (hv'k : v'.kind = v.kind) (hv's : v'.sent = v.sent)
+    (hD'pn : D'.raw? pn = some (.own dp')) (hD'ne : ∀ x, x ≠ pn → D'.raw? x = D.raw? x)
+    (hc' : ∀ p, w.raw? pn = some p → CorrC (writeBackView p i v') dp') :
+    RelV (w.put vn v') D' := by
+  obtain ⟨d0, p, fs, pr, dt, hd, hdv, hp, hpv, _, _, hk, hg, _, hkd, hds, _, hv, _, hne⟩ :=
+    view_resolved hw hget hview
+  have hsome : v'.view.isSome = true := by rw [hv'v, hview]; rfl
+  obtain ⟨r1, r2, r3⟩ := raw?_put_view hd hdv hp hsome hne
+  have hvk : v.kind = .plain dt := by rw [hv]; rfl
+  have hDvn : ∃ dt' s', D.raw? vn = some (.view pn i dt' s') ∧ d0.kind = .plain dt' ∧ d0.sent = s' := by
+    have hm := h.maps vn
+    rw [hd] at hm
+    cases hdx : D.raw? vn with
+    | none => rw [hdx] at hm; exact hm.elim
+    | some e =>
+      rw [hdx] at hm
+      cases e with
+      | own d => exact absurd hm.corr.view (by rw [hdv]; exact fun h => nomatch h)
+      | view pn' i' dt' s' =>
+        obtain ⟨e1, e2, e3⟩ := hm
+        rw [hdv] at e1
+        cases e1
+        exact ⟨dt', s', rfl, e2, e3⟩
+  obtain ⟨dt', s', hDv, hk0, hs0⟩ := hDvn
+  refine ⟨fun x => ?_, fun e he hev => ?_⟩
+  · by_cases hx1 : x = pn
+    · subst hx1; rw [r1, hD'pn]; exact hc' p hp
+    · by_cases hx2 : x = vn
+      · subst hx2
+        rw [r2, hD'ne _ hx1, hDv]
+        refine ⟨?_, ?_, ?_⟩
+        · show v'.view = _; rw [hv'v, hview]
+        · show v'.kind = _; rw [hv'k, hvk, ← hkd, hk0]
+        · show v'.sent = _; rw [hv's, ← hds, hs0]
+      · rw [r3 x hx2 hx1, hD'ne x hx1]; exact h.maps x
+  · rw [put_view hd hdv hp hsome] at he
+    rcases List.mem_cons.1 he with rfl | he
+    · exact ⟨pn, i, dt', s', by rw [hD'ne vn hne]; exact hDv⟩
+    · rcases List.mem_cons.1 he with rfl | he
+      · exact absurd (show (writeBackView p i v').view = none from hpv) hev
+      · have hmem := List.mem_filter.1 he
+        have hne' : e.1 ≠ pn := by
+          have := hmem.2
+          simp only [Bool.and_eq_true, bne_iff_ne, ne_eq] at this
+          exact this.2
+        rw [hD'ne _ hne']
+        exact h.descs e hmem.1 hev
+
+/-- **a refused store through a view** (the looked-up view stored back with its cache reset):
+    the unchanged column is written back, the dense world stays as it is -/
+theorem relV_put_view_same {w : World} {D : DenseWorldV} (h : RelV w D) (hw : w.Good)
+    {vn pn : String} {i : Nat} {v : MapObj} {dp : DenseMapC}
+    (hget : w.get? vn = some v) (hview : v.view = some (pn, i))
+    (hdp : D.raw? pn = some (.own dp)) :
+    RelV (w.put vn { v with cache := none }) D := by
+  obtain ⟨d0, p, fs, pr, dt, hd, hdv, hp, hpv, _, _, hk, hg, _, hkd, hds, _, hv, _, hne⟩ :=
+    view_resolved hw hget hview
+  have hcp : CorrC p dp := by
+    have := h.maps pn
+    rw [hp, hdp] at this
+    exact this
+  refine relV_put_view h hw hget hview rfl rfl rfl hdp (fun _ _ => rfl) fun p0 hp0 => ?_
+  rw [hp] at hp0
+  cases hp0
+  have hst : (writeBackView p i { v with cache := none }).st = p.st :=
+    ApiRanges.writeBackView_same i (by show v.st = _; rw [hv]; rfl)
+  have e : writeBackView p i { v with cache := none } = { p with cache := none } := by
+    unfold writeBackView at hst ⊢
+    simp only at hst
+    rw [hst]
+  rw [e]
+  exact hcp.cache none
+
+/-- the parent's cells after a write through the view of field `i`: field `i` replaced by what the
+    updated view shows -/
+def wbF (dp : DenseMap) (i : Nat) (dv' : DenseMap) : Nat → Val := fun q =>
+  recSetField i (dp.f q) (dv'.f q)
+
+/-- the parent after a write through the view of field `i`; header and mask kept -/
+def writeBackF (dp : DenseMapC) (i : Nat) (dv' : DenseMap) : DenseMapC :=
+  ⟨{ dp.toDense with f := wbF dp.toDense i dv' }, dp.cov⟩
+
+/-- **a library call on a looked-up view, stored back**: accepted → the parent's dense map gets
+    field `i` of the updated dense view; refused → the dense world is unchanged; same answer -/
+theorem relV_view_write {w : World} {D : DenseWorldV} (h : RelV w D) (hw : w.Good)
+    {vn pn : String} {i : Nat} {v : MapObj} {dp : DenseMapC}
+    (hget : w.get? vn = some v) (hview : v.view = some (pn, i))
+    (hdp : D.raw? pn = some (.own dp))
+    {r : Except Err MapObj} {r' : Except Err DenseMap} (hr : OutRelV v.view r r')
+    (hupd : ∀ v', r = .ok v' → ∃ op pix vals single ru, apiUpdate v op pix vals single ru = .ok v') :
+    RelV (match r with
+        | .ok v' => (w.put vn v', "ok")
+        | .error e => (w.put vn { v with cache := none }, errLine e)).1
+      (match r' with
+        | .ok dv' => (D.bind pn (.own (writeBackF dp i dv')), "ok")
+        | .error e => (D, errLine e)).1 ∧
+    (match r with
+        | .ok v' => (w.put vn v', "ok")
+        | .error e => (w.put vn { v with cache := none }, errLine e)).2 =
+      (match r' with
+        | .ok dv' => (D.bind pn (.own (writeBackF dp i dv')), "ok")
+        | .error e => (D, errLine e)).2 := by
+  cases r with
+  | error e =>
+    cases r' with
+    | error e' => cases hr; exact ⟨relV_put_view_same h hw hget hview hdp, rfl⟩
+    | ok _ => exact hr.elim
+  | ok v' =>
+    cases r' with
+    | error _ => exact hr.elim
+    | ok dv' =>
+      obtain ⟨hcv', hvv⟩ := hr
+      obtain ⟨op, pix, vals, single, ru, hu⟩ := hupd v' rfl
+      obtain ⟨d0, p, fs, pr, dt, hd, hdv, hp, hpv, hpok, _, hk, hg, _, hkd, hds, _, hv, hs, hne⟩ :=
+        view_resolved hw hget hview
+      have hcp : CorrC p dp := by
+        have := h.maps pn
+        rw [hp, hdp] at this
+        exact this
+      have hv'eq := (ApiRanges.apiUpdate_ok hu).2.2
+      have hk' : v'.kind = v.kind := by rw [hv'eq]
+      have hs' : v'.sent = v.sent := by rw [hv'eq]
+      refine ⟨relV_put_view h hw hget hview hvv hk' hs' (rawV_bind_self D pn _)
+        (fun x hx => rawV_bind_ne D (Ne.symm hx) _) fun p0 hp0 => ?_, rfl⟩
+      rw [hp] at hp0
+      cases hp0
+      rw [hv] at hu
+      obtain ⟨h1, _, h3, h4, h5, h6, h7, _, h9, h10, _, _⟩ := view_update_spec hpok.1 hk hg hs hu
+      refine ⟨⟨h1, h7.trans hpv, h5.trans hcp.corr.covord, h6.trans hcp.corr.spord,
+        h3.trans hcp.corr.kind, h4.trans hcp.corr.sent, fun q hq => ?_⟩, fun k hk' => ?_⟩
+      · have hq' : q < p.npix := hq
+        rw [h10 q hq']
+        show _ = wbF dp.toDense i dv' q
+        unfold wbF
+        rw [hcp.corr.abs q hq']
+        congr 1
+        have hnp : ({ v' with view := none } : MapObj).npix = p.npix := by
+          show v'.npix = _; rw [hv'eq, hv]; rfl
+        exact hcv'.abs q (by rw [hnp]; exact hq')
+      · have hk'' : k < p.c.ncov := hk'
+        exact (h9 k).trans (hcp.cov k hk'')
+
+end putview
+
+/-! ### the write lines on either kind of target -/
+
+/-- a write request on a view target: the call on the dense array the view shows, an accepted
+    result written into field `i` of the parent -/
+def dRunReqView (D : DenseWorldV) (pn : String) (i : Nat) (dp dv : DenseMapC) :
+    WReq → DenseWorldV × String
+  | .bad s => (D, s)
+  | .reject => (D, errLine .value)
+  | .upd op pix vals single =>
+    match dUpdateView dv.toDense op pix vals single none with
+    | .ok dv' => (D.bind pn (.own (writeBackF dp i dv')), "ok")
+    | .error e => (D, errLine e)
+  | .ranges op R val _ =>
+    match dRangesView dv.toDense op R val with
+    | .ok dv' => (D.bind pn (.own (writeBackF dp i dv')), "ok")
+    | .error e => (D, errLine e)
+
+/-- a write request on the looked-up target -/
+def dRunReqV (D : DenseWorldV) (n : String) (d : DenseMapC) (v : Option (String × Nat))
+    (req : WReq) : DenseWorldV × String :=
+  match v with
+  | none => dRunReqOwn D n d req
+  | some (pn, i) =>
+    match D.raw? pn with
+    | some (.own dp) => dRunReqView D pn i dp d req
+    | _ => (D, "bad-op:no-parent")
+
+theorem relV_runReqV {w : World} {D : DenseWorldV} (h : RelV w D) (hw : w.Good) {n : String}
+    {m : MapObj} {d : DenseMapC} {v : Option (String × Nat)} (hg : w.get? n = some m)
+    (hd : D.get? n = some (d, v)) (hc : CorrC { m with view := none } d) (hmv : m.view = v)
+    (req : WReq) :
+    RelV (runReq w n m req).1 (dRunReqV D n d v req).1 ∧
+      (runReq w n m req).2 = (dRunReqV D n d v req).2 := by
+  cases v with
+  | none => exact relV_runReqOwn h (getV_own hd) (corrC_of_unview hc hmv) req
+  | some pi =>
+    obtain ⟨pn, i⟩ := pi
+    obtain ⟨d0, p, fs, pr, dt, _, _, hp, hpv, _, _, _, _, _, _, _, _, _, _, _⟩ :=
+      ApiRecord.view_resolved hw hg hmv
+    have hdp : ∃ dp, D.raw? pn = some (.own dp) := by
+      have hm := h.maps pn
+      rw [hp] at hm
+      cases hdx : D.raw? pn with
+      | none => rw [hdx] at hm; exact hm.elim
+      | some e =>
+        rw [hdx] at hm
+        cases e with
+        | own dp => exact ⟨dp, rfl⟩
+        | view _ _ _ _ => exact absurd hm.1 (by rw [hpv]; exact fun h => nomatch h)
+    obtain ⟨dp, hdp⟩ := hdp
+    have hsome : m.view.isSome = true := by rw [hmv]; rfl
+    simp only [dRunReqV, hdp]
+    cases req with
+    | bad s => exact ⟨h, rfl⟩
+    | reject => exact ⟨relV_put_view_same h hw hg hmv hdp, rfl⟩
+    | upd op pix vals single =>
+      have hr := apiUpdate_view_corr hsome hc.corr op pix vals single none
+      have key := relV_view_write h hw hg hmv hdp hr
+        (fun v' hv' => ⟨op, pix, vals, single, none, hv'⟩)
+      simp only [runReq, dRunReqView]
+      revert key
+      cases apiUpdate m op pix vals single none <;>
+        cases dUpdateView d.toDense op pix vals single none <;> intro key <;> exact key
+    | ranges op R val sl =>
+      have hr := apiRanges_view_corr hsome hc.corr op R val sl
+      have key := relV_view_write h hw hg hmv hdp hr
+        (fun v' hv' => by
+          obtain ⟨ru, hu⟩ := ApiRecord.apiUpdateRanges_view_ok hsome hv'
+          exact ⟨op, _, _, _, ru, hu⟩)
+      simp only [runReq, dRunReqView]
+      revert key
+      cases apiUpdateRanges m op R val sl <;>
+        cases dRangesView d.toDense op R val <;> intro key <;> exact key
+
+/-! ### the lines on a dense world with views -/
+
+def dCfgV (D : DenseWorldV) (a : Args) : DenseWorldV × String :=
+  match cfgReq a with
+  | some (n, kind, co, so, sent, cp) =>
+    (match apiMakeEmpty co so kind sent cp with
+     | .ok m => (D.bind n (.own (dEmptyC m cp)), "ok")
+     | .error e => (D, errLine e))
+  | none => (D, "bad-op:cfg")
+
+def dGetV (D : DenseWorldV) (a : Args) : DenseWorldV × String :=
+  dWithMapV D a fun d _ =>
+    (D, getAnswer a d.toDense.spord d.toDense.npix d.toDense.f (d.toDense.kind.valid d.toDense.sent))
+
+def dValsV (D : DenseWorldV) (a : Args) : DenseWorldV × String :=
+  dWithMapV D a fun d _ => (D, showVals ((List.range d.toDense.npix).map d.toDense.f))
+
+def dValidV (D : DenseWorldV) (a : Args) : DenseWorldV × String :=
+  dWithMapV D a fun d _ =>
+    (D, showList toString ((ApiDenseScalar.dValidSet d.toDense).map fun p => ((p : Nat) : Int)))
+
+def dNvalidV (D : DenseWorldV) (a : Args) : DenseWorldV × String :=
+  dWithMapV D a fun d _ => (D, toString (ApiDenseScalar.dValidSet d.toDense).length)
+
+def dCovmapV (D : DenseWorldV) (a : Args) : DenseWorldV × String :=
+  dWithMapV D a fun d _ =>
+    (D, showNats ((List.range d.c.ncov).map fun k =>
+      ((ApiDenseScalar.dValidSet d.toDense).filter fun p => p >>> d.c.shift == k).length))
+
+def dCovmaskV (D : DenseWorldV) (a : Args) : DenseWorldV × String :=
+  dWithMapV D a fun d _ => (D, showBits d.covMask)
+
+/-- `copy`: an independent owning map with what the name shows (a copy of a view owns its data) -/
+def dCopyV (D : DenseWorldV) (a : Args) : DenseWorldV × String :=
+  dWithMapV D a fun d _ => (D.bind (a.getD "r" "tmp") (.own d), "ok")
+
+def dScovV (D : DenseWorldV) (a : Args) : DenseWorldV × String :=
+  dWithMapV D a fun d _ =>
+    match a.nat? "k" with
+    | none => (D, "bad-op:k")
+    | some k =>
+      if k ≥ d.c.ncov then (D, errLine .index)
+      else (D.bind (a.getD "r" "tmp") (.own (dScov d k)), "ok")
+
+/-- a `single` request on the looked-up dense map: the copy is an owning entry, the view form
+    registers a descriptor -/
+def dRunSingleV (D : DenseWorldV) (a : Args) (d : DenseMapC) : SReq → DenseWorldV × String
+  | .bad s => (D, s)
+  | .copy i sent =>
+    match dSingleCopy d i sent with
+    | .ok r => (D.bind (a.getD "r" "tmp") (.own r), "ok")
+    | .error e => (D, errLine e)
+  | .view i sent =>
+    match viewSent d.toDense.hdr i sent with
+    | .ok ds => (D.bind (a.getD "r" "tmp") (.view (a.pos.headD "") i ds.1 ds.2), "ok")
+    | .error e => (D, errLine e)
+
+def dSingleV (D : DenseWorldV) (a : Args) : DenseWorldV × String :=
+  dWithMapV D a fun d _ => dRunSingleV D a d (singleReq a d.toDense.kind)
+
+section lines
+variable {w : World} {D : DenseWorldV}
+
+theorem relV_cfg (h : RelV w D) (a : Args) :
+    RelV (opCfg w a).1 (dCfgV D a).1 ∧ (opCfg w a).2 = (dCfgV D a).2 := by
+  rw [opCfg_eq]
+  unfold dCfgV
+  cases cfgReq a with
+  | none => exact ⟨h, rfl⟩
+  | some r =>
+    obtain ⟨n, kind, co, so, sent, cp⟩ := r
+    simp only []
+    cases hm : apiMakeEmpty co so kind sent cp with
+    | error e => exact ⟨h, rfl⟩
+    | ok m => exact ⟨h.bind n (corrC_unview (apiMakeEmpty_corrC hm)), rfl⟩
+
+theorem relV_get_line (h : RelV w D) (a : Args) :
+    RelV (opGet w a).1 (dGetV D a).1 ∧ (opGet w a).2 = (dGetV D a).2 := by
+  rw [opGet_eq]
+  unfold dGetV
+  refine relV_withMap h fun m d v _ _ hc _ => ⟨h, ?_⟩
+  obtain ⟨e1, e2, e3⟩ := hc.corr.read_facts
+  have e1' : m.spord = d.toDense.spord := e1
+  have e2' : m.npix = d.toDense.npix := e2
+  have e3' : m.vc.valid = d.toDense.kind.valid d.toDense.sent := e3
+  show getAnswer a m.spord m.npix m.abs m.vc.valid = _
+  rw [e1', e2', e3']
+  exact getAnswer_congr a _ _ _ _ _ fun p hp => hc.corr.abs p (by rw [e2]; exact hp)
+
+theorem relV_vals (h : RelV w D) (a : Args) :
+    RelV (opVals w a).1 (dValsV D a).1 ∧ (opVals w a).2 = (dValsV D a).2 := by
+  rw [opVals_eq]
+  unfold dValsV
+  refine relV_withMap h fun m d v _ _ hc _ => ⟨h, ?_⟩
+  have e2 : m.npix = d.toDense.npix := hc.corr.read_facts.2.1
+  show showVals ((List.range m.npix).map m.abs) = showVals ((List.range d.toDense.npix).map d.toDense.f)
+  rw [e2]
+  congr 1
+  exact List.map_congr_left fun p hp =>
+    hc.corr.abs p (by rw [hc.corr.read_facts.2.1]; exact List.mem_range.1 hp)
+
+theorem relV_valid (h : RelV w D) (hw : w.Good) (a : Args) :
+    RelV (opValid w a).1 (dValidV D a).1 ∧ (opValid w a).2 = (dValidV D a).2 := by
+  unfold opValid dValidV
+  refine relV_withMap h fun m d v hg _ hc _ => ?_
+  obtain ⟨_, _, _, l, hl, _, _, hs⟩ := C02.valid_listings (hw.get hg)
+  simp only [hl]
+  refine ⟨h, ?_⟩
+  rw [hs]
+  show showList toString ((C02.validSet m.c m.vc m.st).map _) = _
+  have := ApiDenseScalar.corr_validSet hc.corr
+  have e : C02.validSet m.c m.vc m.st = ApiDenseScalar.dValidSet d.toDense := this
+  rw [e]
+
+theorem relV_covmap (h : RelV w D) (hw : w.Good) (a : Args) :
+    RelV (opCovmap w a).1 (dCovmapV D a).1 ∧ (opCovmap w a).2 = (dCovmapV D a).2 := by
+  unfold opCovmap dCovmapV
+  refine relV_withMap h fun m d v hg _ hc _ => ⟨h, ?_⟩
+  show showNats (coverageCounts m.c m.vc m.st) = _
+  have e0 := ApiDenseScalar.corr_validSet hc.corr
+  have e : C02.validSet m.c m.vc m.st = ApiDenseScalar.dValidSet d.toDense := e0
+  have ec : m.c = d.c := hc.c_eq
+  rw [ApiDenseScalar.coverageCounts_dense (hw.get hg), e, ec]
+
+theorem relV_nvalid (h : RelV w D) (hw : w.Good2) (a : Args) (hpath : a.get? "path" ≠ some "str") :
+    RelV (opNvalid w a).1 (dNvalidV D a).1 ∧ (opNvalid w a).2 = (dNvalidV D a).2 := by
+  unfold opNvalid dNvalidV
+  refine relV_withMap h fun m d v hg hd hc hmv => ?_
+  have hok := hw.1.get hg
+  have hfresh := hw.2.get hg
+  have e0 := ApiDenseScalar.corr_validSet hc.corr
+  have e : C02.validSet m.c m.vc m.st = ApiDenseScalar.dValidSet d.toDense := e0
+  have hcount : nValid m.vc m.st = (ApiDenseScalar.dValidSet d.toDense).length := by
+    rw [C02.nValid_eq m.c m.vc m.st hok.1.2 hok.2.1.blankInvalid, e]
+  have hp : (a.get? "path" == some "str") = false := by simpa using hpath
+  cases hca : m.cache with
+  | some n =>
+    simp only []
+    refine ⟨h, ?_⟩
+    rw [hfresh n hca, hcount]
+  | none =>
+    cases v with
+    | none =>
+      have hvs : m.view.isSome = false := by rw [hmv]; rfl
+      simp only [hp, Bool.false_and, Bool.false_eq_true, if_false, hvs]
+      exact ⟨h.put_left _ (getV_own hd) ((corrC_of_unview hc hmv).cache _), by rw [hcount]⟩
+    | some x =>
+      have hvs : m.view.isSome = true := by rw [hmv]; rfl
+      simp only [hp, Bool.false_and, Bool.false_eq_true, if_false, hvs, if_true]
+      exact ⟨h, by rw [hcount]⟩
+
+theorem relV_covmask (h : RelV w D) (a : Args) :
+    RelV (opCovmask w a).1 (dCovmaskV D a).1 ∧ (opCovmask w a).2 = (dCovmaskV D a).2 := by
+  unfold opCovmask dCovmaskV
+  refine relV_withMap h fun m d v _ _ hc _ => ⟨h, ?_⟩
+  have e := hc.covMask_eq
+  show showBits (apiCovMask m) = showBits d.covMask
+  have e' : apiCovMask m = d.covMask := e
+  rw [e']
+
+theorem relV_copy (h : RelV w D) (a : Args) :
+    RelV (opCopy w a).1 (dCopyV D a).1 ∧ (opCopy w a).2 = (dCopyV D a).2 := by
+  unfold opCopy dCopyV
+  exact relV_withMap h fun m d v _ _ hc _ => ⟨h.bind _ (hc.cache none), rfl⟩
+
+theorem relV_scov (h : RelV w D) (a : Args) :
+    RelV (opScov w a).1 (dScovV D a).1 ∧ (opScov w a).2 = (dScovV D a).2 := by
+  unfold opScov dScovV
+  refine relV_withMap h fun m d v _ _ hc _ => ?_
+  cases a.nat? "k" with
+  | none => exact ⟨h, rfl⟩
+  | some k =>
+    simp only []
+    have ec : m.c = d.c := hc.c_eq
+    rw [← ec]
+    by_cases hk : k ≥ m.c.ncov
+    · rw [if_pos hk, if_pos hk]; exact ⟨h, rfl⟩
+    · rw [if_neg hk, if_neg hk]
+      exact ⟨h.bind _ (scov_corrC hc (Nat.lt_of_not_ge hk)), rfl⟩
+
+theorem relV_single (h : RelV w D) (hw : w.Good) (a : Args) :
+    RelV (opSingle w a).1 (dSingleV D a).1 ∧ (opSingle w a).2 = (dSingleV D a).2 := by
+  rw [opSingle_eq]
+  unfold dSingleV
+  refine relV_withMap h fun m d v hg _ hc _ => ?_
+  have hk : m.kind = d.toDense.kind := hc.corr.kind
+  have hs : m.sent = d.toDense.sent := hc.corr.sent
+  rw [hk]
+  cases singleReq a d.toDense.kind with
+  | bad s => exact ⟨h, rfl⟩
+  | copy i sent =>
+    have hr := apiGetSingleCopy_corrC hc (hw.get hg).2.1 i sent
+    have hr' : OutRelM (apiGetSingleCopy m i sent) (dSingleCopy d i sent) := hr
+    simp only [runSingle, dRunSingleV]
+    revert hr'
+    cases apiGetSingleCopy m i sent <;> cases dSingleCopy d i sent <;> intro hr'
+    · cases hr'; exact ⟨h, rfl⟩
+    · exact hr'.elim
+    · exact hr'.elim
+    · exact ⟨h.bind _ (corrC_unview hr'), rfl⟩
+  | view i sent =>
+    simp only [runSingle, dRunSingleV]
+    rw [viewSent_hdr hk hs]
+    cases viewSent d.toDense.hdr i sent with
+    | error e => exact ⟨h, rfl⟩
+    | ok ds => exact ⟨h.register _ _ m i ds.1 ds.2, rfl⟩
+
+end lines
+
+/-! ### falling back to the interpreter of the five families (no descriptor in the pool) -/
+
+/-- the dense map of an owning entry (a placeholder for a descriptor — never looked at when the
+    pool holds no descriptor) -/
+def EntV.ownD : EntV → DenseMapC
+  | .own d => d
+  | .view _ _ _ _ => ⟨⟨0, 0, .packed, .bool false, fun _ => .bool false⟩, fun _ => false⟩
+
+def EntV.isOwn : EntV → Bool
+  | .own _ => true
+  | .view _ _ _ _ => false
+
+/-- no view descriptor in the pool -/
+def DenseWorldV.noViews (D : DenseWorldV) : Bool := D.all fun e => e.2.isOwn
+
+/-- the owning entries as a coverage-aware dense world -/
+def DenseWorldV.toC (D : DenseWorldV) : DenseWorldC := D.map fun e => (e.1, e.2.ownD)
+
+/-- a coverage-aware dense world as a world with views (none) -/
+def liftV (C : DenseWorldC) : DenseWorldV := C.map fun e => (e.1, EntV.own e.2)
+
+theorem toC_get? (D : DenseWorldV) (x : String) : D.toC.get? x = (D.raw? x).map EntV.ownD := by
+  unfold DenseWorldV.toC DenseWorldC.get? DenseWorldV.raw?
+  induction D with
+  | nil => rfl
+  | cons e D ih =>
+    rw [List.map_cons, List.find?_cons, List.find?_cons]
+    cases h : e.1 == x
+    · simp only []; exact ih
+    · simp only []; rfl
+
+theorem liftV_raw? (C : DenseWorldC) (x : String) : (liftV C).raw? x = (C.get? x).map EntV.own := by
+  unfold liftV DenseWorldC.get? DenseWorldV.raw?
+  induction C with
+  | nil => rfl
+  | cons e C ih =>
+    rw [List.map_cons, List.find?_cons, List.find?_cons]
+    cases h : e.1 == x
+    · simp only []; exact ih
+    · simp only []; rfl
+
+theorem noViews_raw {D : DenseWorldV} {x : String} {e : EntV} (hD : D.noViews = true)
+    (h : D.raw? x = some e) : ∃ d, e = .own d := by
+  unfold DenseWorldV.raw? at h
+  cases hf : D.find? (·.1 == x) with
+  | none => rw [hf] at h; cases h
+  | some e' =>
+    rw [hf] at h
+    cases h
+    have hmem := List.mem_of_find?_eq_some hf
+    have := (List.all_eq_true.1 hD) e' hmem
+    cases hE : e'.2 with
+    | own d => exact ⟨d, hE⟩
+    | view _ _ _ _ => rw [hE] at this; cases this
+
+theorem noViews_liftV (C : DenseWorldC) : (liftV C).noViews = true := by
+  unfold DenseWorldV.noViews liftV
+  rw [List.all_eq_true]
+  intro e he
+  obtain ⟨e', _, rfl⟩ := List.mem_map.1 he
+  rfl
+
+theorem relC_of_relV {w : World} {D : DenseWorldV} (h : RelV w D) (hD : D.noViews = true) :
+    RelC w D.toC := by
+  refine ⟨fun e he => ?_, fun x => ?_⟩
+  · cases hview : e.2.view with
+    | none => rfl
+    | some pi =>
+      obtain ⟨pn, i, dt, s, hr⟩ := h.descs e he (by rw [hview]; exact fun h => nomatch h)
+      obtain ⟨d, hd⟩ := noViews_raw hD hr
+      cases hd
+  · rw [toC_get?]
+    have hm := h.maps x
+    revert hm
+    cases w.raw? x <;> cases hr : D.raw? x <;> intro hm
+    · trivial
+    · rename_i e; cases e <;> exact hm.elim
+    · exact hm.elim
+    · obtain ⟨d, rfl⟩ := noViews_raw hD hr
+      exact hm
+
+theorem relV_of_relC {w : World} {C : DenseWorldC} (h : RelC w C) : RelV w (liftV C) := by
+  refine ⟨fun x => ?_, fun e he hv => absurd (h.owning e he) hv⟩
+  rw [liftV_raw?]
+  have hm := h.maps x
+  revert hm
+  cases w.raw? x <;> cases C.get? x <;> intro hm <;> exact hm
+
+/-- a line of the five families while the pool holds no descriptor: `ApiDenseAll.dstepArgsAll` on
+    the owning entries -/
+def dFallback (D : DenseWorldV) (op : String) (a : Args) : DenseWorldV × String :=
+  (liftV (ApiDenseAll.dstepArgsAll D.toC op a).1, (ApiDenseAll.dstepArgsAll D.toC op a).2)
+
+theorem relV_fallback {w : World} {D : DenseWorldV} (h : RelV w D) (hw : w.Good2)
+    (hD : D.noViews = true) {op : String} (a : Args) (hp : ApiDenseAll.opOkAll op a = true) :
+    RelV (stepArgs w op a).1 (dFallback D op a).1 ∧ (stepArgs w op a).2 = (dFallback D op a).2 := by
+  obtain ⟨h1, h2⟩ := ApiDenseAll.rel_stepArgsAll (relC_of_relV h hD) hw a hp
+  exact ⟨relV_of_relC h1, h2⟩
+
+/-! ### the interpreter -/
+
+/-- the operations interpreted directly on the world with views (owning and view targets) -/
+def viewOp (op : String) : Bool :=
+  op == "cfg" || op == "upd" || op == "updr" || op == "set" || op == "get" || op == "vals" ||
+  op == "valid" || op == "nvalid" || op == "covmap" || op == "copy" || op == "scov" || op == "single" ||
+  op == "covmask"
+
+/-- **the dense interpreter with views**: one parsed line -/
+def dstepArgsV (D : DenseWorldV) (op : String) (a : Args) : DenseWorldV × String :=
+  match op with
+  | "cfg" => dCfgV D a
+  | "upd" => dWithMapV D a fun d v =>
+      dRunReqV D (a.pos.headD "") d v (updReq a d.toDense.kind d.toDense.sent)
+  | "updr" => dWithMapV D a fun d v => dRunReqV D (a.pos.headD "") d v (updrReq a)
+  | "set" => dWithMapV D a fun d v => dRunReqV D (a.pos.headD "") d v (setReq a)
+  | "get" => dGetV D a
+  | "vals" => dValsV D a
+  | "valid" => dValidV D a
+  | "nvalid" => dNvalidV D a
+  | "covmap" => dCovmapV D a
+  | "copy" => dCopyV D a
+  | "scov" => dScovV D a
+  | "single" => dSingleV D a
+  | "covmask" => dCovmaskV D a
+  | _ => if D.noViews then dFallback D op a else (D, "not-covered:view-in-pool")
+
+/-- the parsed lines the interpreter answers: the record / view family and every line of the five
+    families of `ApiDenseAll` (`nvalid … path=str` excepted, as there) -/
+def opOkV (op : String) (a : Args) : Bool :=
+  (viewOp op || ApiDenseAll.opOkAll op a) && !(op == "nvalid" && a.get? "path" == some "str")
+
+/-- the side condition, computed on the dense side: a line outside `viewOp` is interpreted only
+    while the pool holds no view descriptor -/
+def settledV (D : DenseWorldV) (op : String) : Bool := viewOp op || D.noViews
+
+theorem viewOp_cases {op : String} (h : viewOp op = true) :
+    op = "cfg" ∨ op = "upd" ∨ op = "updr" ∨ op = "set" ∨ op = "get" ∨ op = "vals" ∨
+    op = "valid" ∨ op = "nvalid" ∨ op = "covmap" ∨ op = "copy" ∨ op = "scov" ∨ op = "single" ∨
+    op = "covmask" := by
+  unfold viewOp at h
+  simp only [Bool.or_eq_true, beq_iff_eq] at h
+  rcases h with (((((((((((h | h) | h) | h) | h) | h) | h) | h) | h) | h) | h) | h) | h
+  · exact Or.inl h
+  · exact Or.inr (Or.inl h)
+  · exact Or.inr (Or.inr (Or.inl h))
+  · exact Or.inr (Or.inr (Or.inr (Or.inl h)))
+  · exact Or.inr (Or.inr (Or.inr (Or.inr (Or.inl h))))
+  · exact Or.inr (Or.inr (Or.inr (Or.inr (Or.inr (Or.inl h)))))
+  · exact Or.inr (Or.inr (Or.inr (Or.inr (Or.inr (Or.inr (Or.inl h))))))
+  · exact Or.inr (Or.inr (Or.inr (Or.inr (Or.inr (Or.inr (Or.inr (Or.inl h)))))))
+  · exact Or.inr (Or.inr (Or.inr (Or.inr (Or.inr (Or.inr (Or.inr (Or.inr (Or.inl h))))))))
+  · exact Or.inr (Or.inr (Or.inr (Or.inr (Or.inr (Or.inr (Or.inr (Or.inr (Or.inr (Or.inl h)))))))))
+  · exact Or.inr (Or.inr (Or.inr (Or.inr (Or.inr (Or.inr (Or.inr (Or.inr (Or.inr (Or.inr (Or.inl h))))))))))
+  · exact Or.inr (Or.inr (Or.inr (Or.inr (Or.inr (Or.inr (Or.inr (Or.inr (Or.inr (Or.inr (Or.inr (Or.inl h)))))))))))
+  · exact Or.inr (Or.inr (Or.inr (Or.inr (Or.inr (Or.inr (Or.inr (Or.inr (Or.inr (Or.inr (Or.inr (Or.inr h)))))))))))
+
+theorem dstepArgsV_other {op : String} (hv : ¬ viewOp op = true) (D : DenseWorldV) (a : Args) :
+    dstepArgsV D op a =
+      if D.noViews then dFallback D op a else (D, "not-covered:view-in-pool") := by
+  unfold dstepArgsV
+  split <;> first | rfl | exact absurd (by decide +kernel) hv
+
+/-- **one parsed line**: the protocol and the dense interpreter with views stay in agreement and
+    give the same answer (sparse world: the reachable invariant `Good2`; dense side: `settledV`) -/
+theorem rel_stepArgsV {w : World} {D : DenseWorldV} (h : RelV w D) (hw : w.Good2) {op : String}
+    (a : Args) (hp : opOkV op a = true) (hs : settledV D op = true) :
+    RelV (stepArgs w op a).1 (dstepArgsV D op a).1 ∧
+      (stepArgs w op a).2 = (dstepArgsV D op a).2 := by
+  unfold opOkV at hp
+  rw [Bool.and_eq_true] at hp
+  obtain ⟨hp, hnv⟩ := hp
+  by_cases hv : viewOp op = true
+  · rcases viewOp_cases hv with
+      rfl | rfl | rfl | rfl | rfl | rfl | rfl | rfl | rfl | rfl | rfl | rfl | rfl
+    · exact relV_cfg h a
+    · show RelV (opUpd w a).1 _ ∧ (opUpd w a).2 = _
+      rw [opUpd_eq]
+      refine relV_withMap h fun m d v hg hd hc hmv => ?_
+      rw [show m.kind = d.toDense.kind from hc.corr.kind, show m.sent = d.toDense.sent from hc.corr.sent]
+      exact relV_runReqV h hw.1 hg hd hc hmv _
+    · show RelV (opUpdr w a).1 _ ∧ (opUpdr w a).2 = _
+      rw [opUpdr_eq]
+      exact relV_withMap h fun m d v hg hd hc hmv => relV_runReqV h hw.1 hg hd hc hmv _
+    · show RelV (opSet w a).1 _ ∧ (opSet w a).2 = _
+      rw [opSet_eq]
+      exact relV_withMap h fun m d v hg hd hc hmv => relV_runReqV h hw.1 hg hd hc hmv _
+    · exact relV_get_line h a
+    · exact relV_vals h a
+    · exact relV_valid h hw.1 a
+    · refine relV_nvalid h hw a ?_
+      intro hs'
+      rw [hs'] at hnv
+      exact absurd hnv (by decide)
+    · exact relV_covmap h hw.1 a
+    · exact relV_copy h a
+    · exact relV_scov h a
+    · exact relV_single h hw.1 a
+    · exact relV_covmask h a
+  · have hD : D.noViews = true := by
+      unfold settledV at hs
+      rw [Bool.or_eq_true] at hs
+      exact hs.resolve_left hv
+    have hall : ApiDenseAll.opOkAll op a = true := by
+      rw [Bool.or_eq_true] at hp
+      exact hp.resolve_left hv
+    rw [dstepArgsV_other hv, if_pos hD]
+    exact relV_fallback h hw hD a hall
+
+/-! ### raw lines and histories -/
+
+/-- **the lines the interpreter answers** -/
+def lineOkV (line : String) : Bool :=
+  match lineToks line with
+  | [] => true
+  | op :: rest => opOkV op (parseArgs rest)
+
+/-- the side condition of one raw line in the dense world `D` -/
+def settledLine (D : DenseWorldV) (line : String) : Bool :=
+  match lineToks line with
+  | [] => true
+  | op :: _ => settledV D op
+
+/-- the interpreter on a raw line -/
+def dstepV (D : DenseWorldV) (line : String) : DenseWorldV × String :=
+  match lineToks line with
+  | [] => (D, "bad-op:empty")
+  | op :: rest => dstepArgsV D op (parseArgs rest)
+
+/-- … and on a history, from the empty dense world -/
+def drunV (lines : List String) : DenseWorldV := lines.foldl (fun D l => (dstepV D l).1) []
+
+/-- the side condition along a history, computed by the dense run alone -/
+def settledFromV (D : DenseWorldV) : List String → Bool
+  | [] => true
+  | l :: ls => settledLine D l && settledFromV (dstepV D l).1 ls
+
+theorem viewOp_not_packed {op : String} (h : viewOp op = true) : op.startsWith "p." = false := by
+  rcases viewOp_cases h with
+    rfl | rfl | rfl | rfl | rfl | rfl | rfl | rfl | rfl | rfl | rfl | rfl | rfl <;> decide +kernel
+
+theorem opOkV_not_packed {op : String} {a : Args} (h : opOkV op a = true) :
+    op.startsWith "p." = false := by
+  unfold opOkV at h
+  rw [Bool.and_eq_true, Bool.or_eq_true] at h
+  rcases h.1 with h | h
+  · exact viewOp_not_packed h
+  · exact ApiDenseAll.opOkAll_not_packed h
+
+/-- **one raw line** -/
+theorem rel_stepV {w : World} {D : DenseWorldV} (hR : RelV w D) (hw : w.Good2) {line : String}
+    (hp : lineOkV line = true) (hs : settledLine D line = true) :
+    RelV (step w line).1 (dstepV D line).1 ∧ (step w line).2 = (dstepV D line).2 := by
+  have hstep : step w line = match lineToks line with
+      | [] => (w, "bad-op:empty")
+      | op :: rest =>
+        if op.startsWith "p." then
+          let (pw, o) := stepPacked w.packed op (parseArgs rest)
+          ({ w with packed := pw }, o)
+        else stepArgs w op (parseArgs rest) := rfl
+  rw [hstep]
+  unfold dstepV
+  unfold lineOkV at hp
+  unfold settledLine at hs
+  cases ht : lineToks line with
+  | nil => exact ⟨hR, rfl⟩
+  | cons op rest =>
+    rw [ht] at hp hs
+    simp only [opOkV_not_packed hp, Bool.false_eq_true, if_false]
+    exact rel_stepArgsV hR hw _ hp hs
+
+/-- related worlds, the sparse one satisfying the reachable invariant -/
+structure RelVA (w : World) (D : DenseWorldV) : Prop where
+  rel : RelV w D
+  good : w.Good2
+
+theorem relVA_empty : RelVA {} [] := ⟨relV_empty, World.good_empty, World.cachePool_empty⟩
+
+theorem relVA_step {w : World} {D : DenseWorldV} (h : RelVA w D) {line : String}
+    (hp : lineOkV line = true) (hs : settledLine D line = true) :
+    RelVA (step w line).1 (dstepV D line).1 ∧ (step w line).2 = (dstepV D line).2 :=
+  ⟨⟨(rel_stepV h.rel h.good hp hs).1, Good2.step h.good line⟩, (rel_stepV h.rel h.good hp hs).2⟩
+
+theorem rel_foldlV (lines : List String) (w : World) (D : DenseWorldV) (h : RelVA w D)
+    (hp : ∀ l ∈ lines, lineOkV l = true) (hs : settledFromV D lines = true) :
+    RelVA (lines.foldl (fun w l => (step w l).1) w) (lines.foldl (fun D l => (dstepV D l).1) D) := by
+  induction lines generalizing w D with
+  | nil => exact h
+  | cons l ls ih =>
+    unfold settledFromV at hs
+    rw [Bool.and_eq_true] at hs
+    exact ih _ _ (relVA_step h (hp l List.mem_cons_self) hs.1).1
+      (fun l' h' => hp l' (List.mem_cons_of_mem _ h')) hs.2
+
+/-- **histories**: the world a history reaches agrees with the dense world with views the
+    interpreter reaches -/
+theorem rel_runLinesV (lines : List String) (hp : ∀ l ∈ lines, lineOkV l = true)
+    (hs : settledFromV [] lines = true) : RelV (runLines lines) (drunV lines) :=
+  (rel_foldlV lines _ _ relVA_empty hp hs).rel
+
+/-- the answers of the interpreter along a history -/
+def danswersV (lines : List String) : List String :=
+  (lines.foldl (fun (Do : DenseWorldV × List String) l =>
+    ((dstepV Do.1 l).1, Do.2 ++ [(dstepV Do.1 l).2])) ([], [])).2
+
+theorem answers_foldlV (lines : List String) (w : World) (D : DenseWorldV) (acc : List String)
+    (h : RelVA w D) (hp : ∀ l ∈ lines, lineOkV l = true) (hs : settledFromV D lines = true) :
+    (lines.foldl (fun (wo : World × List String) l => ((step wo.1 l).1, wo.2 ++ [(step wo.1 l).2]))
+      (w, acc)).2 =
+    (lines.foldl (fun (Do : DenseWorldV × List String) l =>
+      ((dstepV Do.1 l).1, Do.2 ++ [(dstepV Do.1 l).2])) (D, acc)).2 := by
+  induction lines generalizing w D acc with
+  | nil => rfl
+  | cons l ls ih =>
+    unfold settledFromV at hs
+    rw [Bool.and_eq_true] at hs
+    obtain ⟨h', ha⟩ := relVA_step h (hp l List.mem_cons_self) hs.1
+    simp only [List.foldl_cons]
+    rw [ha]
+    exact ih _ _ _ h' (fun l' hl' => hp l' (List.mem_cons_of_mem _ hl')) hs.2
+
+/-- **the list of all answers** of a history is the list of answers of the interpreter -/
+theorem answers_eq_danswersV (lines : List String) (hp : ∀ l ∈ lines, lineOkV l = true)
+    (hs : settledFromV [] lines = true) : answers lines = danswersV lines :=
+  answers_foldlV lines _ _ _ relVA_empty hp hs
+
+/-! ### histories that are settled by construction -/
+
+theorem noViews_bind_own {D : DenseWorldV} (h : D.noViews = true) (n : String) (d : DenseMapC) :
+    (D.bind n (.own d)).noViews = true := by
+  unfold DenseWorldV.noViews DenseWorldV.bind at *
+  rw [List.all_cons, Bool.and_eq_true]
+  refine ⟨rfl, ?_⟩
+  rw [List.all_eq_true] at h ⊢
+  exact fun e he => h e (List.mem_filter.1 he).1
+
+theorem noViews_withMap {D : DenseWorldV} (h : D.noViews = true) {a : Args}
+    {k : DenseMapC → Option (String × Nat) → DenseWorldV × String}
+    (hk : ∀ d v, (k d v).1.noViews = true) : (dWithMapV D a k).1.noViews = true := by
+  unfold dWithMapV
+  split
+  · split
+    · exact hk _ _
+    · exact h
+  · exact h
+
+theorem noViews_runReqV {D : DenseWorldV} (h : D.noViews = true) (n : String) (d : DenseMapC)
+    (v : Option (String × Nat)) (req : WReq) : (dRunReqV D n d v req).1.noViews = true := by
+  unfold dRunReqV
+  split
+  · cases req <;> simp only [dRunReqOwn]
+    · exact h
+    · exact h
+    · split
+      · exact noViews_bind_own h _ _
+      · exact h
+    · split
+      · exact noViews_bind_own h _ _
+      · exact h
+  · split
+    · cases req <;> simp only [dRunReqView]
+      · exact h
+      · exact h
+      · split
+        · exact noViews_bind_own h _ _
+        · exact h
+      · split
+        · exact noViews_bind_own h _ _
+        · exact h
+    · exact h
+
+/-- a parsed line that registers no view: anything but the view form of `single` -/
+def noViewArgs (op : String) (a : Args) : Bool := op != "single" || a.flag "copy"
+
+theorem singleReq_not_view {a : Args} (hc : a.flag "copy" = true) (k : Kind) (i : Nat)
+    (s : Option Val) : singleReq a k ≠ .view i s := by
+  unfold singleReq
+  split
+  · split
+    · exact fun h => nomatch h
+    · exact fun h => nomatch h
+  · exact fun h => nomatch h
+
+/-- **a line that is not the view form of `single` keeps the dense pool free of descriptors** -/
+theorem noViews_stepArgsV {D : DenseWorldV} (h : D.noViews = true) {op : String} {a : Args}
+    (hc : noViewArgs op a = true) : (dstepArgsV D op a).1.noViews = true := by
+  unfold dstepArgsV
+  split
+  · unfold dCfgV
+    split
+    · split
+      · exact noViews_bind_own h _ _
+      · exact h
+    · exact h
+  · exact noViews_withMap h fun d v => noViews_runReqV h _ d v _
+  · exact noViews_withMap h fun d v => noViews_runReqV h _ d v _
+  · exact noViews_withMap h fun d v => noViews_runReqV h _ d v _
+  · exact noViews_withMap h fun _ _ => h
+  · exact noViews_withMap h fun _ _ => h
+  · exact noViews_withMap h fun _ _ => h
+  · exact noViews_withMap h fun _ _ => h
+  · exact noViews_withMap h fun _ _ => h
+  · exact noViews_withMap h fun _ _ => noViews_bind_own h _ _
+  · refine noViews_withMap h fun d _ => ?_
+    split
+    · exact h
+    · split
+      · exact h
+      · exact noViews_bind_own h _ _
+  · refine noViews_withMap h fun d _ => ?_
+    have hcp : a.flag "copy" = true := by
+      unfold noViewArgs at hc
+      rw [Bool.or_eq_true] at hc
+      rcases hc with hc | hc
+      · exact absurd hc (by decide)
+      · exact hc
+    cases hreq : singleReq a d.toDense.kind with
+    | bad s => exact h
+    | copy i sent =>
+      simp only [dRunSingleV]
+      split
+      · exact noViews_bind_own h _ _
+      · exact h
+    | view i sent => exact absurd hreq (singleReq_not_view hcp _ _ _)
+  · exact noViews_withMap h fun _ _ => h
+  · rw [if_pos h]
+    exact noViews_liftV _
+
+/-- a raw line that registers no view -/
+def noViewLine (line : String) : Bool :=
+  match lineToks line with
+  | [] => true
+  | op :: rest => noViewArgs op (parseArgs rest)
+
+theorem noViews_stepV {D : DenseWorldV} (h : D.noViews = true) {line : String}
+    (hc : noViewLine line = true) : (dstepV D line).1.noViews = true := by
+  unfold dstepV
+  unfold noViewLine at hc
+  split
+  · exact h
+  · rename_i op rest ht
+    rw [ht] at hc
+    exact noViews_stepArgsV h hc
+
+theorem settledLine_of_noViews {D : DenseWorldV} (h : D.noViews = true) (line : String) :
+    settledLine D line = true := by
+  unfold settledLine settledV
+  split
+  · rfl
+  · rw [h, Bool.or_true]
+
+/-- **histories without the view form of `single` are settled** -/
+theorem settledFromV_of_noViews {D : DenseWorldV} (h : D.noViews = true) (lines : List String)
+    (hc : ∀ l ∈ lines, noViewLine l = true) : settledFromV D lines = true := by
+  induction lines generalizing D with
+  | nil => rfl
+  | cons l ls ih =>
+    unfold settledFromV
+    rw [Bool.and_eq_true]
+    exact ⟨settledLine_of_noViews h l,
+      ih (noViews_stepV h (hc l List.mem_cons_self)) fun l' h' => hc l' (List.mem_cons_of_mem _ h')⟩
+
+/-- a raw line of the record / view family proper (interpreted with views in the pool) -/
+def viewLine (line : String) : Bool :=
+  match lineToks line with
+  | [] => true
+  | op :: _ => viewOp op
+
+/-- **histories of `viewOp` lines are settled**, whatever views they register -/
+theorem settledFromV_of_viewLines (D : DenseWorldV) (lines : List String)
+    (hc : ∀ l ∈ lines, viewLine l = true) : settledFromV D lines = true := by
+  induction lines generalizing D with
+  | nil => rfl
+  | cons l ls ih =>
+    unfold settledFromV
+    rw [Bool.and_eq_true]
+    refine ⟨?_, ih _ fun l' h' => hc l' (List.mem_cons_of_mem _ h')⟩
+    have := hc l List.mem_cons_self
+    unfold viewLine at this
+    unfold settledLine settledV
+    split
+    · rfl
+    · rename_i op rest ht
+      rw [ht] at this
+      have this' : viewOp op = true := this
+      rw [this', Bool.true_or]
 
 end ApiDenseViews
 end HS
